@@ -75,7 +75,8 @@ class MemFS:
         class F(io.BytesIO if 'b' in mode else io.StringIO):
             def close(s):
                 if 'w' in mode:
-                    fs.files[(fname, 'plain')] = s.getvalue()
+                    v = s.getvalue()
+                    fs.files[(fname, 'plain')] = v if isinstance(v, bytes) else v.encode('utf-8')
                 super().close()
 
             def __exit__(s, *a):
@@ -83,7 +84,7 @@ class MemFS:
         if 'w' in mode:
             return F()
         data = fs.files[(fname, 'plain')]
-        return F(data)
+        return F(data if 'b' in mode else data.decode('utf-8'))
 
     def gzopen(self, fname, mode='rb', **kw):
         fs = self
@@ -136,10 +137,10 @@ def mk_rich(cx, tag, kind):
         c, _ = lib.mk_covobs(cx, tag + 'c', 'cv', 2)
         o = a * b + c * a
     elif kind == 'cov':
-        o, _ = lib.mk_covobs(cx, tag, 'cw', 3)
+        o, _ = lib.mk_covobs(cx, tag, 'cu', 3)
     elif kind == 'covmix':
         a, _ = lib.mk_obs(cx, tag + 'a', E)
-        c, _ = lib.mk_covobs(cx, tag + 'c', 'cv', 1)
+        c, _ = lib.mk_covobs(cx, tag + 'c', 'cy', 1)
         d, _ = lib.mk_covobs(cx, tag + 'd', 'cw', 2)
         o = a + 2 * c - d
     elif kind == 'reweighted':
